@@ -47,6 +47,8 @@ static void qdesc(char *out, size_t cap)
 extern "C" int igc_rand(void)
 {
     // qsort uses rand() % nmemb with nmemb <= n: the answers 0..n-1 reach every pivot of every sub-array
+    if (rand_hook)
+        return rand_hook();
     Q.nrand++;
     int r = mc::choose(Q.n < 1 ? 1 : Q.n);
     // a second representative of each residue class with the high bits set, to exercise the int -> size_t conversion
@@ -316,7 +318,9 @@ MC_INIT
                         bdesc(d, sizeof d);
                         void *r = nullptr;
                         calls++;
+                        mc::crash_context("C11.bsearch.memory");
                         bool ok = mc::guarded([&] { r = igc_bsearch(B.keyp, B.base, B.n, B.size, bcmp_); });
+                        mc::crash_context("C11.harness");
                         if (!ok)
                         {
                             mc::violation(B.n == 0 ? "C11.bsearch.access_outside_array.empty_array" : "C11.bsearch.access_outside_array", "%s: touched the inaccessible page next to the array or key", d);
